@@ -9,12 +9,16 @@ def run_v(path):
     s = open(path).read()
     def merge(m):
         a, b = m.group(1), m.group(2)
-        if "Require Import" in a:
-            mods = []
+        if "Require Import" in a or "Require Import" in b:
+            libs = {}
+            order = []
             for side in (a, b):
-                for w in re.search(r"Require Import (.*)\.", side).group(1).split():
-                    if w not in mods: mods.append(w)
-            return "From Lungo.Model Require Import " + " ".join(mods) + ".\n"
+                for m2 in re.finditer(r"From (\S+) Require Import ([^.]*(?:\.[A-Za-z][^. ]*)*)\.\s*\n", side):
+                    lib = m2.group(1)
+                    if lib not in libs: libs[lib] = []; order.append(lib)
+                    for w in m2.group(2).split():
+                        if w not in libs[lib]: libs[lib].append(w)
+            return "".join("From %s Require Import %s.\n" % (l, " ".join(libs[l])) for l in order)
         lines = []
         for side in (a, b):
             for l in side.splitlines():
